@@ -184,6 +184,35 @@ def session_cases(ctx):
         print('Trace_Session', name, vv[:2], 'OK' if ok else 'UNEXPECTED', flush=True)
 
 
+def group_session_cases(ctx):
+    import group_rp
+    E = lambda a, tk=1, v=0, c='peak', k=0, ax='': {'a': a, 'tk': tk, 'v': v, 'c': c, 'k': k, 'ax': ax}
+    beh = [E('New', 1), E('Fit', 1, 0, 'peak', 3, '01'), E('Edit', 2, 2, 'lvl'), E('SetThr', 2), E('Recompute', 2, 1), E('Look', 2)]
+    tr = group_rp.replay(beh, 0)
+    t1 = copy.deepcopy(tr)
+    t1[1]['models'][0], t1[1]['models'][1] = t1[1]['models'][1], t1[1]['models'][0]      # two models of the fitted group swapped
+    t2 = copy.deepcopy(tr)
+    t2[4]['shown'][2] += 1                                                               # df_features keeps another table than the model after recompute_edges
+    t3 = copy.deepcopy(tr)
+    t3[4]['ref'] = list(tr[1]['models'])                                                 # as if the recomputation had used the settings of fit time (nothing changed)
+    t3[4]['models'] = list(tr[1]['models']); t3[4]['shown'] = list(tr[1]['models'])
+    t3[4]['ref'] = list(tr[4]['ref'])
+    t4 = copy.deepcopy(tr)
+    t4[2]['heap'][0]['lvl'] = 2                                                          # the OTHER dictionary changed with the user's edit
+    t5 = copy.deepcopy(tr)
+    t5[5]['look_ok'] = False                                                             # len / iteration / indexing disagree with models
+    path = os.path.join(ctx.scratch.path, 'gsess.json')
+    tlc.dump_json(path, [tr, t1, t2, t3, t4, t5])
+    res = tlc.must(tlc.run('Trace_GroupSession', group_rp.CFG, ctx.scratch, env={'TRACE_FILE': path}, workers=1))
+    v = {p[1]: p[2] for p in res['prints'] if p[0] == 'VERDICT'}
+    for k, name in enumerate(['original group session', 'two models of the fitted group swapped', 'df_features differs from the models after recompute_edges',
+                              'recompute_edges left the tables of fit() (stale settings)', 'the other threshold dictionary changed with an edit', 'len / iteration / indexing disagree with models']):
+        vv = list(v.get(k + 1, ['no verdict']))
+        ok = (not vv) if k == 0 else bool(vv)
+        ROWS.append(('Trace_GroupSession', name, 'accepted' if not vv else 'rejected: ' + ', '.join(dict.fromkeys(vv))[:110], 'as expected' if ok else 'UNEXPECTED'))
+        print('Trace_GroupSession', name, vv[:2], 'OK' if ok else 'UNEXPECTED', flush=True)
+
+
 def _runfilter(ctx, cases):
     path = os.path.join(ctx.scratch.path, 'corr_runfilter.json')
     tlc.dump_json(path, cases)
@@ -257,6 +286,7 @@ def main():
         relation_cases(ctx)
         pool_cases(ctx)
         session_cases(ctx)
+        group_session_cases(ctx)
         misc_cases(ctx)
     lines = ['| trace specification | recorded case | TLC verdict | |', '|---|---|---|---|'] + ['| %s | %s | %s | %s |' % r for r in ROWS]
     os.makedirs('/verif/selftest', exist_ok=True)
